@@ -8,10 +8,11 @@ package announce
 // C16: announce receiver shutdown never hangs
 
 //@ protects Receiver.announceMutex: closed, announceCache
+//@ nonnil log ErrClosed errSourceNotAllowed errAlreadySeenCid
 
 // Data-structure invariant of a Receiver built by NewReceiver: the done
 // channel exists and is closed only once the receiver is marked closed.
-//@ spec func recvOK(r val) bool = r != nil && r.done != nil && r.announceCache != nil && (closed(r.done) ==> r.closed)
+//@ spec func recvOK(r val) bool = r != nil && r.done != nil && r.announceCache != nil && (closed(r.done) ==> r.closed) && r.outChan != nil && !closed(r.outChan)
 
 // Close: idempotent; every return leaves the mutex as it found it (implicit
 // balance obligation); close(done) at most once.
@@ -22,8 +23,8 @@ package announce
 //@   requires r.cancelPubsub != nil ==> r.topic != nil
 //@   mayblock recv:watchDone
 //@   shutdown done
-//@   ensures old(r.closed) ==> result == nil && count("close:done") == 0
-//@   ensures !old(r.closed) ==> count("close:done") == 1
+//@   ensures-local old(r.closed) ==> result == nil && count("close:done") == 0
+//@   ensures-local !old(r.closed) ==> count("close:done") == 1
 
 //@ func (*Receiver).Next
 //@   property C16
@@ -42,7 +43,7 @@ package announce
 //@   property C16 C09
 //@   requires recvOK(r) && !held(r.announceMutex) && ctx != nil
 //@   shutdown done
-//@   ensures count("send:outChan") <= 1
+//@   ensures-local count("send:outChan") <= 1
 
 // After close the duplicate filter is not touched; a rejected source never
 // reaches the mutex or the filter.
@@ -51,9 +52,15 @@ package announce
 //@   requires recvOK(r) && !held(r.announceMutex)
 //@   ghost allowed := true
 //@   at call allowPeer#1: after ghost allowed := result
-//@   ensures !allowed ==> result != nil && count("call:update") == 0 && count("lock:announceMutex") == 0
-//@   ensures allowed && old(r.closed) ==> result == ErrClosed && count("call:update") == 0
-//@   ensures result == nil ==> count("call:update") == 1
+//@   ensures-local !allowed ==> result != nil && count("call:update") == 0 && count("lock:announceMutex") == 0
+//@   ensures-local allowed && old(r.closed) ==> result == ErrClosed && count("call:update") == 0
+//@   ensures-local result == nil ==> count("call:update") == 1
+//@   ensures old(r.closed) ==> result != nil
+
+// Network send through pubsub; changes pubsub-internal state only.
+//@ func (*Receiver).republish
+//@   trusted "republication through the p2p sender: only pubsub-internal state changes"
+//@   pure
 
 //@ func (*stringLRU).remove
 //@   nobody
